@@ -351,6 +351,11 @@ def run(tier):
         # ... and undos of a list that is no longer the tail of the operations (refused)
         chosen += [x for x in lst[n:] if x[1].get("stale")][:2]
     chosen += sync_scenarios()
+    # transactions that outgrow SQLite's page cache (values of 1.2 MB): dirty pages reach the
+    # database file before COMMIT, so only the journal can take them back after a stop
+    h1 = edit([P, C("u13"), U("u13", "status", "pending"), U("u13", "tag", "huge1")])
+    h2 = edit([P, U("u13", "tag", "huge2", "huge1"), C("u14"), U("u14", "tag", "huge3")])
+    chosen += [([], h1), ([h1], h2)]
     stimuli = []
     for i, (prior, act) in enumerate(chosen):
         stimuli.append({"id": i, "prior": prior, "action": act, "seed": seed(),
